@@ -19,6 +19,18 @@ elif kind == 'R':
     body = 'R(%r)' % src
 elif kind.startswith('POS'):
     body = 'POS(%r, %r)' % (src, [int(x) for x in kind.split(':')[1].split(',')])
+elif kind == 'SH':
+    import glob
+    d = os.path.dirname(os.path.abspath(files[0]))
+    fl = {}
+    for root, _, names in os.walk(d):
+        for n in names:
+            q = os.path.join(root, n)
+            rel = os.path.relpath(q, d)
+            if rel in ('demo.sh', 'README.md') or os.path.getsize(q) > 20000:
+                continue
+            fl[rel] = open(q, encoding='latin1').read()
+    body = "{'kind': 'script', 'generic': True, 'script': %r, 'files': %r}" % (src, fl)
 elif kind.startswith('X'):
     chi = kind.split(':')[1].split(',')
     body = 'X(%r, %r)' % ({os.path.basename(f): open(f).read() for f in files}, chi)
